@@ -2438,6 +2438,46 @@ impl ModuleGraph {
         }
       }
     }
+    // the builder loads the source map of a module as an external module,
+    // which a walk does not visit
+    let source_map_specifiers = new_graph
+      .module_slots
+      .values()
+      .filter_map(|slot| match slot {
+        ModuleSlot::Module(Module::Js(module)) => module
+          .maybe_source_map_dependency
+          .as_ref()
+          .and_then(|d| d.dependency.maybe_specifier())
+          .cloned(),
+        _ => None,
+      })
+      .collect::<Vec<_>>();
+    for mut specifier in source_map_specifiers {
+      let mut redirect_count = 0;
+      while let Some((from, to)) = self.redirects.get_key_value(&specifier) {
+        new_graph.redirects.insert(from.clone(), to.clone());
+        specifier = to.clone();
+        redirect_count += 1;
+        if redirect_count > self.redirects.len() {
+          break;
+        }
+      }
+      if !new_graph.module_slots.contains_key(&specifier) {
+        match self.module_slots.get(&specifier) {
+          Some(ModuleSlot::Module(module)) => {
+            new_graph
+              .module_slots
+              .insert(specifier, ModuleSlot::Module(module.clone()));
+          }
+          Some(ModuleSlot::Err(err)) => {
+            new_graph
+              .module_slots
+              .insert(specifier, ModuleSlot::Err(err.clone()));
+          }
+          Some(ModuleSlot::Pending { .. }) | None => {}
+        }
+      }
+    }
     new_graph.imports.clone_from(&self.imports);
     new_graph.roots = roots.iter().map(|r| (*r).to_owned()).collect();
     // todo(dsherret): it should be a bit smarter about this, but this is not terrible
